@@ -872,6 +872,71 @@ def duration_variant(enc: Enc, node, rng):
     return doc, n
 
 
+def _alt_lexical(conv: str, lex: str, rng, in_attr: bool) -> str:
+    """another legal spelling of the same value of an XSD simple type (xs:boolean 1 / 0, leading zeros, +, `5.` / `.5` /
+    trailing fraction zeros, surrounding white space where the type collapses white space)"""
+    out = lex
+    if conv == 'Boolean':
+        out = {'true': '1', 'false': '0', '1': 'true', '0': 'false'}.get(lex, lex)
+        return out      # (white space around booleans: see open points in the report)
+    if conv in ('Integer', 'UnsignedInt', 'Timestamp') and lex.lstrip('-').isdigit():
+        sign, digits = ('-', lex[1:]) if lex.startswith('-') else ('', lex)
+        out = sign + '0' * rng.randint(1, 3) + digits
+        if conv == 'Integer' and not sign and rng.random() < 0.4:
+            out = '+' + digits
+    elif conv == 'Decimal' and lex.replace('-', '', 1).replace('.', '', 1).isdigit():
+        sign, body = ('-', lex[1:]) if lex.startswith('-') else ('', lex)
+        choice = rng.randrange(4)
+        if '.' not in body:
+            body = [body + '.', body + '.0', '0' + body, body + '.000'][choice]
+        elif body.startswith('0.') and choice == 0:
+            body = body[1:]
+        else:
+            body = [body + '0', '00' + body, body + '000', body][choice]
+        out = sign + body
+    else:
+        return lex
+    if rng.random() < 0.5:
+        ws = [' ', '  '] if in_attr else [' ', '\n', '\t', ' \n ']
+        out = rng.choice(ws) + out + rng.choice(ws)
+    return out
+
+
+def lexical_variant(tab: Table, obj, node, rng) -> int:
+    """rewrite (in place) the scalar attributes / element texts of `node` - the document written for `obj` - to other legal
+    spellings of the same values; type-directed (object and document are walked together). Returns the number of changes."""
+    ci = tab.index.get(type(obj))
+    if ci is None or node is None:
+        return 0
+    n = 0
+    for (name, p), e in zip(tab.props[ci], tab.entries[ci]['props']):
+        kind, xml = e['kind'], e.get('xml')
+        v = sh.actual(obj, p)
+        if kind == 'attr' and xml in node.attrib and not e['volatile']:
+            new = _alt_lexical(e['conv'], node.get(xml), rng, True)
+            n += new != node.get(xml)
+            node.set(xml, new)
+        elif kind == 'attrList' and xml in node.attrib and e['conv'] in ('Decimal', 'Integer'):
+            new = ' '.join(_alt_lexical(e['conv'], t, rng, True).strip() for t in node.get(xml).split(' ') if t)
+            n += new != node.get(xml)
+            node.set(xml, new)
+        elif kind == 'text' and e['style'] == 'plain':
+            el = node if xml is None else node.find(xml)
+            if el is not None and el.text and not len(el):
+                new = _alt_lexical(e['conv'], el.text, rng, False)
+                n += new != el.text
+                el.text = new
+        elif kind == 'sub' and xml and sh.is_value_object(v):
+            n += lexical_variant(tab, v, node.find(xml), rng)
+        elif kind == 'subList' and xml and isinstance(v, list):
+            subs = node.findall(xml)
+            if len(subs) == len(v):
+                for item, sub in zip(v, subs):
+                    if sh.is_value_object(item):
+                        n += lexical_variant(tab, item, sub, rng)
+    return n
+
+
 def foreign_oracle(ctx, tab: Table, enc: Enc, obj, node, case, variant):
     """a document with the same content written by a foreign stack must be read to the same value"""
     key = sh.class_key(type(obj))
@@ -892,6 +957,11 @@ def foreign_oracle(ctx, tab: Table, enc: Enc, obj, node, case, variant):
     if ndur:
         ctx.count('foreign:duration-fraction-digits')
         variant += '+duration-digits'
+    nlex = lexical_variant(tab, obj, doc, random.Random(len(etree.tostring(doc)) + 2))
+    if nlex:
+        doc = etree.fromstring(etree.tostring(doc))
+        ctx.count('foreign:alternative-lexical-forms')
+        variant += '+alt-lexical'
     try:
         back = parse_node(type(obj), doc)
     except Exception as ex:  # noqa: BLE001
